@@ -170,9 +170,21 @@ impl<'a> Gen<'a> {
             6 => 3,
             7 => 4,
             8 => 5 + self.r.below(4) as usize,
-            _ => 1 + self.r.below(12) as usize,
+            _ => {
+                if self.r.chance(1, 4) {
+                    // beyond 64 bits, still inside Decimal's 96-bit mantissa (with the fraction below)
+                    self.tag("long-number");
+                    19 + self.r.below(4) as usize
+                } else {
+                    1 + self.r.below(12) as usize
+                }
+            }
         };
-        let ip = self.digits(ilen);
+        let mut ip = self.digits(ilen);
+        if ilen >= 19 {
+            // keep the leading digit small so that integer + fraction digits stay below 2^96
+            ip.replace_range(0..1, "1");
+        }
         if self.r.chance(1, 3) {
             // number{1-3} ("," number{3})*
             let first = ((ilen - 1) % 3) + 1;
@@ -195,6 +207,7 @@ impl<'a> Gen<'a> {
                 6 => 3,
                 _ => 4 + self.r.below(5) as usize,
             };
+            let f = if ilen >= 19 { f.min(28 - ilen) } else { f };
             s.push_str(&self.digits(f));
         }
         s
